@@ -236,3 +236,19 @@ Theorem C10_lib_SAED90_all_connected_cell : forall cell, In cell lib_SAED90 ->
   (forall name, In name (t_names cell) -> is_d15 d15_none name = false) ->
   resolve_ok_all_connected (lib_names lib_SAED90) cell = true.
 Proof. exact (all_cell_lift lib_SAED90 d15_none SAED90_all). Qed.
+
+(** *** the COMPLETE library tables (one entry per expanded cell name, implementation as TechLib.__init__ builds it) satisfy the
+    hypotheses of the loop theorem C10_resolve_function (Properties/C10.v section 7): every definition has an implementation, no
+    implementation contains a library kind, FORK is no cell name, every implementation is consistent, has the shapes subst_shape_b /
+    pure_ports_b and a combinationally acyclic view (so it has a solution for every stimulus) -- hence for ANY consistent host
+    circuit over any of the five libraries whose library instances are no ports and outside D22, resolve_tlib_cells with the whole
+    table has the conclusions of C10_resolve_function *)
+From KV Require Import Model.CircuitResolveSem Proofs.CircuitResolveLibs.
+Theorem C10_lib_tables_ok : forall lib, In lib [lib_GSC180; lib_NANGATE; lib_NANGATE_ZN; lib_SAED32; lib_SAED90] ->
+  tlib_complete_b lib = true /\ lib_ok_sem_b (tlib_of lib) = true /\ lib_total_b (tlib_of lib) = true.
+Proof. exact tlib_tables_ok. Qed.
+Theorem C10_lib_tables_sizes :
+  map (fun l => List.length (tlib_of l)) [lib_GSC180; lib_NANGATE; lib_NANGATE_ZN; lib_SAED32; lib_SAED90] =
+  map (fun l => List.length (flat_map t_names l)) [lib_GSC180; lib_NANGATE; lib_NANGATE_ZN; lib_SAED32; lib_SAED90] /\
+  forallb (fun l => Nat.ltb 20 (List.length (tlib_of l))) [lib_GSC180; lib_NANGATE; lib_NANGATE_ZN; lib_SAED32; lib_SAED90] = true.
+Proof. exact tlib_sizes. Qed.
